@@ -263,6 +263,11 @@ func (v *Verifier) dischargeLocked(o *Obligation, timeoutS int, needTwo bool, mu
 }
 
 func (v *Verifier) solveText(o *Obligation, q string, gv []*Term, timeoutS int, needTwo bool) *Result {
+	if o.Cover {
+		// vacuity guards are best-effort: only a conclusive `unsat` is an alarm
+		timeoutS = 3
+		needTwo = false
+	}
 	file := filepath.Join(scratchDir(), sanitize(o.Name)+fmt.Sprintf("-%d.smt2", time.Now().UnixNano()%1000000))
 	os.WriteFile(file, []byte(q), 0o644)
 	if os.Getenv("GOVC_KEEP") == "" {
